@@ -85,7 +85,7 @@ impl EXD {
 
                 let row_header = ExcelDataRowHeader::read(&mut cursor).ok()?;
 
-                let header_offset = offset.offset + 6; // std::mem::size_of::<ExcelDataRowHeader>() as u32;
+                let header_offset = offset.offset.checked_add(6)?; // std::mem::size_of::<ExcelDataRowHeader>() as u32;
 
                 let mut read_row = |row_offset: u32| -> Option<ExcelRow> {
                     let mut subrow = ExcelRow {
@@ -94,12 +94,14 @@ impl EXD {
 
                     for column in &exh.column_definitions {
                         cursor
-                            .seek(SeekFrom::Start((row_offset + column.offset as u32).into()))
+                            .seek(SeekFrom::Start(
+                                row_offset.checked_add(column.offset as u32)?.into(),
+                            ))
                             .ok()?;
 
                         subrow
                             .data
-                            .push(Self::read_column(&mut cursor, exh, row_offset, column).unwrap());
+                            .push(Self::read_column(&mut cursor, exh, row_offset, column)?);
                     }
 
                     Some(subrow)
@@ -108,14 +110,15 @@ impl EXD {
                 return if row_header.row_count > 1 {
                     let mut rows = Vec::new();
                     for i in 0..row_header.row_count {
-                        let subrow_offset =
-                            header_offset + (i * exh.header.data_offset + 2 * (i + 1)) as u32;
+                        let subrow_offset = header_offset.checked_add(
+                            i as u32 * exh.header.data_offset as u32 + 2 * (i as u32 + 1),
+                        )?;
 
-                        rows.push(read_row(subrow_offset).unwrap());
+                        rows.push(read_row(subrow_offset)?);
                     }
                     Some(rows)
                 } else {
-                    Some(vec![read_row(header_offset).unwrap()])
+                    Some(vec![read_row(header_offset)?])
                 };
             }
         }
@@ -142,45 +145,45 @@ impl EXD {
 
         match column.data_type {
             ColumnDataType::String => {
-                let string_offset: u32 = Self::read_data_raw(cursor).unwrap();
+                let string_offset: u32 = Self::read_data_raw(cursor)?;
 
                 cursor
                     .seek(SeekFrom::Start(
-                        (row_offset + exh.header.data_offset as u32 + string_offset).into(),
+                        row_offset as u64 + exh.header.data_offset as u64 + string_offset as u64,
                     ))
                     .ok()?;
 
                 let mut string = String::new();
 
-                let mut byte: u8 = Self::read_data_raw(cursor).unwrap();
+                let mut byte: u8 = Self::read_data_raw(cursor)?;
                 while byte != 0 {
                     string.push(byte as char);
-                    byte = Self::read_data_raw(cursor).unwrap();
+                    byte = Self::read_data_raw(cursor)?;
                 }
 
                 Some(ColumnData::String(string))
             }
             ColumnDataType::Bool => {
-                let bool_data: u8 = Self::read_data_raw(cursor).unwrap();
+                let bool_data: u8 = Self::read_data_raw(cursor)?;
 
                 Some(ColumnData::Bool(bool_data != 0))
             }
-            ColumnDataType::Int8 => Some(ColumnData::Int8(Self::read_data_raw(cursor).unwrap())),
-            ColumnDataType::UInt8 => Some(ColumnData::UInt8(Self::read_data_raw(cursor).unwrap())),
-            ColumnDataType::Int16 => Some(ColumnData::Int16(Self::read_data_raw(cursor).unwrap())),
+            ColumnDataType::Int8 => Some(ColumnData::Int8(Self::read_data_raw(cursor)?)),
+            ColumnDataType::UInt8 => Some(ColumnData::UInt8(Self::read_data_raw(cursor)?)),
+            ColumnDataType::Int16 => Some(ColumnData::Int16(Self::read_data_raw(cursor)?)),
             ColumnDataType::UInt16 => {
-                Some(ColumnData::UInt16(Self::read_data_raw(cursor).unwrap()))
+                Some(ColumnData::UInt16(Self::read_data_raw(cursor)?))
             }
-            ColumnDataType::Int32 => Some(ColumnData::Int32(Self::read_data_raw(cursor).unwrap())),
+            ColumnDataType::Int32 => Some(ColumnData::Int32(Self::read_data_raw(cursor)?)),
             ColumnDataType::UInt32 => {
-                Some(ColumnData::UInt32(Self::read_data_raw(cursor).unwrap()))
+                Some(ColumnData::UInt32(Self::read_data_raw(cursor)?))
             }
             ColumnDataType::Float32 => {
-                Some(ColumnData::Float32(Self::read_data_raw(cursor).unwrap()))
+                Some(ColumnData::Float32(Self::read_data_raw(cursor)?))
             }
-            ColumnDataType::Int64 => Some(ColumnData::Int64(Self::read_data_raw(cursor).unwrap())),
+            ColumnDataType::Int64 => Some(ColumnData::Int64(Self::read_data_raw(cursor)?)),
             ColumnDataType::UInt64 => {
-                Some(ColumnData::UInt64(Self::read_data_raw(cursor).unwrap()))
+                Some(ColumnData::UInt64(Self::read_data_raw(cursor)?))
             }
             ColumnDataType::PackedBool0 => Some(ColumnData::Bool(read_packed_bool(0))),
             ColumnDataType::PackedBool1 => Some(ColumnData::Bool(read_packed_bool(1))),
